@@ -289,6 +289,8 @@ enum Outcome {
     Finished,
     Blocked,
     WatchChanged,
+    /// the thread busy-waits (no event for 150 ms): it was halted where it happened to be
+    Spinning,
     Died(String),
     Timeout,
 }
@@ -306,6 +308,8 @@ pub struct TraceInfo {
     pub single_steps: u64,
     pub syscall_stops: u64,
     pub extra_threads: u64,
+    /// times a busy-waiting thread was halted so that somebody else could run (the place is timing-dependent)
+    pub spin_yields: u64,
     pub deadlock: Option<String>,
     pub died: Option<String>,
     pub timeout: bool,
@@ -393,22 +397,29 @@ enum Ev {
 
 impl Tracer {
     fn wait(&self, tid: i32) -> Ev {
+        self.wait_q(tid, None).expect("an event")
+    }
+
+    /// `quiet_after`: give up with None when nothing has happened for that long (the resumed thread
+    /// computes for long, or it busy-waits).
+    fn wait_q(&self, tid: i32, quiet_after: Option<Duration>) -> Option<Ev> {
         // the tracee is the only thing running: its stop arrives within microseconds unless it
         // computes for long; poll without sleeping first (a blocking wait costs a wake-up per stop,
         // which halves the throughput), then back off
         let mut spins = 0u32;
+        let mut since: Option<Instant> = None;
         loop {
             let mut status = 0i32;
             let r = unsafe { libc::waitpid(tid, &mut status, libc::__WALL | libc::WNOHANG) };
             if r == tid {
                 if libc::WIFEXITED(status) {
-                    return Ev::Exited(format!("exit status {}", libc::WEXITSTATUS(status)));
+                    return Some(Ev::Exited(format!("exit status {}", libc::WEXITSTATUS(status))));
                 }
                 if libc::WIFSIGNALED(status) {
-                    return Ev::Exited(format!("killed by signal {}", libc::WTERMSIG(status)));
+                    return Some(Ev::Exited(format!("killed by signal {}", libc::WTERMSIG(status))));
                 }
                 if libc::WIFSTOPPED(status) {
-                    return Ev::Stop { sig: libc::WSTOPSIG(status), event: (status >> 16) & 0xff };
+                    return Some(Ev::Stop { sig: libc::WSTOPSIG(status), event: (status >> 16) & 0xff });
                 }
                 continue;
             }
@@ -417,12 +428,20 @@ impl Tracer {
                 if e == libc::EINTR {
                     continue;
                 }
-                return Ev::Exited(format!("waitpid errno {}", e));
+                return Some(Ev::Exited(format!("waitpid errno {}", e)));
             }
             spins += 1;
             if spins > 2000 {
-                if Instant::now() > self.deadline {
-                    return Ev::Timeout;
+                let now = Instant::now();
+                if now > self.deadline {
+                    return Some(Ev::Timeout);
+                }
+                if let Some(q) = quiet_after {
+                    match since {
+                        None => since = Some(now),
+                        Some(t0) if now.duration_since(t0) > q => return None,
+                        _ => {}
+                    }
                 }
                 std::thread::sleep(Duration::from_micros(if spins > 20000 { 500 } else { 20 }));
             } else {
@@ -612,7 +631,38 @@ impl Tracer {
                 return Outcome::Died("cannot resume thread".into());
             }
             pending_sig = 0;
-            let ev = self.wait(tid);
+            let first = self.wait_q(tid, Some(Duration::from_millis(150)));
+            let mut ev = Ev::Timeout;
+            let quiet = first.is_none();
+            if let Some(e) = first {
+                ev = e;
+            }
+            if quiet {
+                // halt it where it is (a signal-delivery stop; the signal itself is not delivered)
+                unsafe { libc::syscall(libc::SYS_tgkill, self.pid, tid, libc::SIGSTOP) };
+                loop {
+                    match self.wait(tid) {
+                        Ev::Stop { sig, event } if sig == libc::SIGSTOP && event == 0 => {
+                            if need_reinsert {
+                                if let Some(a) = bp_addr {
+                                    if poke_u8(tid, a, 0xcc) {
+                                        bp_in = true;
+                                    }
+                                }
+                            }
+                            lift(&mut bp_in);
+                            self.info.spin_yields += 1;
+                            return Outcome::Spinning;
+                        }
+                        other => {
+                            // something else happened first: handle it normally; the pending SIGSTOP will
+                            // surface as a stop later and is ignored there
+                            ev = other;
+                            break;
+                        }
+                    }
+                }
+            }
             if need_reinsert {
                 if let (Some(a), Ev::Stop { .. }) = (bp_addr, &ev) {
                     if poke_u8(tid, a, 0xcc) {
@@ -946,6 +996,7 @@ impl Tracer {
     }
 
     fn drive_thread(&mut self, ti: usize, stop: Option<(u64, u32)>) -> Outcome {
+        let mut quiet_rounds = 0u32;
         loop {
             if self.threads[ti].state == TState::Finished {
                 return Outcome::Finished;
@@ -996,12 +1047,61 @@ impl Tracer {
                     match self.run_until(h, None, Some((uaddr, val))) {
                         Outcome::Died(how) => return Outcome::Died(how),
                         Outcome::Timeout => return Outcome::Timeout,
-                        _ => continue,
+                        Outcome::Spinning => {
+                            // the only thread that could release this one busy-waits itself
+                            quiet_rounds += 1;
+                            if quiet_rounds >= 30 {
+                                self.info.deadlock = Some("a caller sleeps in a futex wait while the thread that could end it keeps busy-waiting".to_string());
+                                return Outcome::Blocked;
+                            }
+                            continue;
+                        }
+                        _ => {
+                            quiet_rounds = 0;
+                            continue;
+                        }
                     }
                 }
             }
             match self.run_until(ti, stop, None) {
                 Outcome::Blocked => continue,
+                Outcome::Spinning => {
+                    // it waits, busily, for something another thread must do: let the others run, each
+                    // until its next event, and come back
+                    quiet_rounds += 1;
+                    let mut progressed = false;
+                    let others: Vec<usize> = (0..self.threads.len()).filter(|i| *i != ti && self.threads[*i].tid != self.main_tid && self.threads[*i].state != TState::Finished).collect();
+                    for h in others {
+                        if let TState::Blocked { uaddr, val } = self.threads[h].state.clone() {
+                            let htid = self.threads[h].tid;
+                            if !self.word_changed(htid, uaddr, val) {
+                                continue;
+                            }
+                        }
+                        self.info.helper_runs += 1;
+                        match self.run_until(h, None, None) {
+                            Outcome::Died(how) => return Outcome::Died(how),
+                            Outcome::Timeout => return Outcome::Timeout,
+                            Outcome::Spinning => {}
+                            _ => {
+                                progressed = true;
+                                break;
+                            }
+                        }
+                    }
+                    if progressed {
+                        quiet_rounds = 0;
+                    } else if quiet_rounds >= 30 {
+                        // about five seconds of spinning and nobody else can make a step
+                        let who = match self.threads[ti].client {
+                            Some(c) => format!("caller {}", c),
+                            None => format!("thread {}", self.threads[ti].tid),
+                        };
+                        self.info.deadlock = Some(format!("{} keeps busy-waiting and nobody is left to run who could end it (a livelock: a flag never cleared, a spin lock never released)", who));
+                        return Outcome::Blocked;
+                    }
+                    continue;
+                }
                 other => return other,
             }
         }
@@ -1487,6 +1587,10 @@ fn gen_one_operator(seed: u64, index: u64) -> (E1Run, Vec<Op>) {
     // the *shape* of the call (which form of the operator, which body, how many operands) is drawn
     // once per workload; callers and the history differ in operand values only
     let shape_seed = rng.next_u64();
+    // a fifth of the workloads: *many* operands (10-20 per call, drawn with repeats from 6-10 values per
+    // caller) for the operators that take a list: small fixed-size tables are then hit in every slot by
+    // every caller
+    let many = rng.chance(1, 5);
     let mk_op = |rng: &mut Rng, palette: &Vec<Value>, fresh: bool| -> Op {
         let mut sh = Rng::new(shape_seed);
         let scalar = |rng: &mut Rng| -> Value { palette[rng.below(palette.len())].clone() };
@@ -1497,7 +1601,7 @@ fn gen_one_operator(seed: u64, index: u64) -> (E1Run, Vec<Op>) {
             } else if ops::HELPERS_2.contains(&h) {
                 Op::helper(h, vec![scalar(rng).to_string(), scalar(rng).to_string()], fresh)
             } else {
-                let n = sh.range(1, 4);
+                let n = if many { sh.range(10, 20) } else { sh.range(1, 4) };
                 let xs: Vec<Value> = (0..n).map(|_| scalar(rng)).collect();
                 Op::helper(h, vec![Value::Array(xs).to_string()], fresh)
             }
@@ -1547,7 +1651,7 @@ fn gen_one_operator(seed: u64, index: u64) -> (E1Run, Vec<Op>) {
                 "!" | "!!" | "log" => json!({ o: [scalar(rng)] }),
                 "-" | "/" | "%" | "==" | "!=" | "===" | "!==" => json!({ o: [scalar(rng), scalar(rng)] }),
                 _ => {
-                    let n = sh.range(2, 3);
+                    let n = if many { sh.range(10, 20) } else { sh.range(2, 3) };
                     json!({ o: (0..n).map(|_| scalar(rng)).collect::<Vec<_>>() })
                 }
             };
@@ -1560,7 +1664,7 @@ fn gen_one_operator(seed: u64, index: u64) -> (E1Run, Vec<Op>) {
         let fresh = rng.chance(1, 4);
         // a caller's operands come from a palette of its own of one to three values: the same value
         // meets the same leaf several times in a row, other callers bring other values
-        let k = 1 + rng.weighted(&[40, 40, 20]);
+        let k = if many { rng.range(6, 10) } else { 1 + rng.weighted(&[40, 40, 20]) };
         let palette: Vec<Value> = (0..k).map(|_| draw(&mut rng)).collect();
         let op = mk_op(&mut rng, &palette, fresh);
         // each caller makes its call twice (a value remembered wrongly shows at the second call)
@@ -2077,6 +2181,7 @@ pub fn main(a: &crate::Args) -> i32 {
                 bump(&mut faults, "preemption-between-two-machine-instructions", info.stops_reached);
                 bump(&mut faults, "caller-held-at-futex-wait-entry", info.blocked_events);
                 bump(&mut faults, "other-thread-run-until-awaited-word-changed", info.helper_runs);
+                bump(&mut faults, "busy-waiting-thread-halted-so-that-others-run", info.spin_yields);
                 if plan.segs.iter().filter(|s| s.stop.is_some()).count() >= 2 && info.stops_reached >= 2 {
                     bump(&mut faults, "runs-with-two-or-more-preemptions", 1);
                 }
@@ -2105,7 +2210,7 @@ pub fn main(a: &crate::Args) -> i32 {
                 if samples.len() < 2 && info.stops_reached >= 1 {
                     samples.push(r.to_json());
                 }
-                if det_every > 0 && runs % det_every == 0 && rep.crashed.is_none() {
+                if det_every > 0 && runs % det_every == 0 && rep.crashed.is_none() && info.spin_yields == 0 {
                     det_checked += 1;
                     let (again, info2) = e1::exec_in_child_traced(&r, &isos);
                     let info2 = info2.unwrap_or_default();
